@@ -122,7 +122,7 @@ def generate(check, rng, tier, run_index):
     live = []
     for _ in range(nops):
         kinds = [('iter_new', 10 if ngen < 6 else 0), ('iter_next', 30 if live else 0), ('iter_drain', 6 if live else 0),
-                 ('load', 8), ('load_frame', 6), ('load_list', 5), ('raw', 0 if single else 8)]
+                 ('load', 8), ('load_frame', 6), ('load_list', 5), ('load_list_bad', 2), ('raw', 0 if single else 8)]
         k = rng.weighted(kinds)
         if k == 'iter_new':
             f = rng.below(nfiles)
@@ -156,6 +156,13 @@ def generate(check, rng, tier, run_index):
             o = {'op': 'load_list', 'fs': [rng.below(nfiles) for _ in range(kf)],
                  'stride': rng.weighted([(None, 3), (2, 2), (3, 1)]), 'top': rng.choice(['obj', 'path', 'shared'])}
             if rng.chance(0.5):
+                o['ai'] = rng.below(len(subsets))
+        elif k == 'load_list_bad':
+            # fault: a later file of the list exists but is unreadable (truncated copy / unrelated bytes): the load is
+            # expected to fail half way; what it leaves behind must not change what later loads return
+            o = {'op': 'load_list_bad', 'fs': [rng.below(nfiles)], 'bad': rng.choice(['truncated', 'junk', 'empty']),
+                 'stride': rng.weighted([(None, 3), (2, 1)]), 'top': rng.choice(['obj', 'shared', 'shared'])}
+            if rng.chance(0.7):
                 o['ai'] = rng.below(len(subsets))
         else:
             o = _gen_handle_op(rng, len(handles), len(subsets))
@@ -676,6 +683,39 @@ def step_loader(res, check, world, gens, op, stepno):
             d = dict(bad[1])
             d.update({'op': op, 'n_frames': N, 'format': fmt})
             res.violate('%s|%s|%s|%s|%s' % (check, fmt, kind, bad[0], flags), stepno, d)
+        return
+    if kind == 'load_list_bad':
+        k0 = op['fs'][0]
+        f0 = world.files[k0]
+        fmt = f0['spec']['fmt']
+        if fmt == 'dtr':
+            return
+        bad = os.path.join(os.path.dirname(f0['path']), 'bad_%d%s' % (stepno, fmts.FORMATS[fmt]['ext']))
+        with open(f0['path'], 'rb') as fh:
+            data = fh.read()
+        with open(bad, 'wb') as fh:
+            fh.write(data[:max(1, int(len(data) * 0.55))] if op['bad'] == 'truncated' else (b'' if op['bad'] == 'empty' else b'not a trajectory \x00\x01' * 20))
+        top = world.top_for(k0, op['top'])
+        ai = resolve_subset(world.subsets[op['ai']], f0['spec']['n_atoms']) if op.get('ai') is not None else None
+        kw = {}
+        if top is not None:
+            kw['top'] = top
+        if ai is not None:
+            kw['atom_indices'] = ai
+        if op['stride'] is not None:
+            kw['stride'] = op['stride']
+        res.fault('unreadable_file_in_list:' + op['bad'])
+        try:
+            md.load([f0['path'], bad], **kw)
+            outcome = 'loaded'
+        except Exception as e:
+            outcome = 'raised ' + type(e).__name__
+        res.log.append('%d load_list_bad(%s) -> %s' % (stepno, op['bad'], outcome))
+        res.trace.append((fmt, 'load_list_bad', op['bad'], outcome.split()[0], ai is not None, op['top']))
+        try:
+            os.unlink(bad)
+        except OSError:
+            pass
         return
     if kind == 'load_list':
         ks = op['fs']
